@@ -323,6 +323,35 @@ Section BpeRoundtrip.
     - apply IH. intros x Hx. apply Hi. right. exact Hx.
   Qed.
 
+  (** what Decode (Encode s) is in general: the concatenation of the PIECES the pre-tokeniser returned for the text
+      fragments (and of the special literals) - so the round trip holds exactly when the pieces are a partition *)
+  Definition frag_out (f : frag) : str := match f with FText t => concat (split t) | FSpec sp _ => sp end.
+  Definition pieces_ok (s : str) : Prop :=
+    forall t, In (FText t) (fragments v s) -> is_bytes (concat (split t)) /\ no_nul (concat (split t)) = true.
+
+  Lemma bpe_frags_decode_pieces s fs :
+    specials_plain s -> pieces_ok s -> incl fs (fragments v s) ->
+    bpe_decode v (flat_map (bpe_frag v split) fs) = Some (concat (map frag_out fs)).
+  Proof.
+    intros Hg Hp. induction fs as [|f fs IH]; intros Hi; [reflexivity|].
+    cbn [flat_map map concat]. apply bpe_decode_app; [|apply IH; intros x Hx; apply Hi; right; exact Hx].
+    assert (Hin : In f (fragments v s)) by (apply Hi; left; reflexivity).
+    pose proof (fragments_infix v s f Hin) as Hinf.
+    pose proof (fragments_ok v s) as Hok. rewrite Forall_forall in Hok. specialize (Hok f Hin).
+    destruct f as [t|sp id]; cbn [bpe_frag frag_out frag_value] in *.
+    - destruct (Hp t Hin) as [H1 H2]. apply bpe_pieces_roundtrip; assumption.
+    - destruct Hok as [Hsp ->]. cbn [bpe_decode]. rewrite Hcons by (apply Hspec, Hsp).
+      rewrite unmap_string_ascii by (apply Hg; assumption). rewrite app_nil_r. reflexivity.
+  Qed.
+
+  Theorem bpe_decode_is_pieces s :
+    specials_plain s -> pieces_ok s ->
+    bpe_decode v (bpe_encode v split s false) = Some (concat (map frag_out (fragments v s))).
+  Proof.
+    intros Hg Hp. unfold bpe_encode, add_special. cbn [andb]. unfold bpe_encode_ids.
+    apply (bpe_frags_decode_pieces s); [exact Hg|exact Hp|apply incl_refl].
+  Qed.
+
   Theorem bpe_roundtrip_on s :
     is_bytes s -> no_nul s = true -> specials_plain s -> split_ok_on s ->
     bpe_decode v (bpe_encode v split s false) = Some s.
